@@ -2,7 +2,7 @@ from __future__ import annotations
 
 from enum import auto, Enum
 from time import time
-from typing import Awaitable, Callable, Optional, Tuple
+from typing import Awaitable, Callable, List, Optional, Tuple
 from urllib.parse import unquote
 
 from .events import (
@@ -62,6 +62,7 @@ class HTTPStream:
         self.app = app
         self.app_put: Optional[Callable] = None
         self.client = client
+        self.trailers: List[Tuple[bytes, bytes]] = []
         self.closed = False
         self.config = config
         self.context = context
@@ -237,13 +238,11 @@ class HTTPStream:
                 and self.scope["http_version"] in TRAILERS_VERSIONS
                 and self.state == ASGIHTTPState.TRAILERS
             ):
-                for name, value in self.scope["headers"]:
-                    if name == b"te" and value == b"trailers":
-                        headers = build_and_validate_headers(message["headers"])
-                        await self.send(Trailers(stream_id=self.stream_id, headers=headers))
-                        break
-
+                # Sent together (they end the response) with the last of them
+                self.trailers.extend(build_and_validate_headers(message["headers"]))
                 if not message.get("more_trailers", False):
+                    if (b"te", b"trailers") in self.scope["headers"] and len(self.trailers) > 0:
+                        await self.send(Trailers(stream_id=self.stream_id, headers=self.trailers))
                     await self._send_closed()
             else:
                 raise UnexpectedMessageError(self.state, message["type"])
